@@ -6,6 +6,10 @@ OBLIGATIONS = [
        what='on one spec-encoded file with symbolic field values: gds_units, gds_info (names, counts, tag sets, units) and gds_timestamp(read) equal what read_gds yields; read_gds with a 1-element tag filter == load all and drop other shapes (labels kept)',
        bound='file: one cell with a 3-vertex BOUNDARY and a TEXT; coordinates +-2^16, 15-bit layers/types, UNITS 1e-3/1e-9, arbitrary time stamps; hash<Tag> arbitrary',
        variants=[{'OP': k} for k in range(4)], unwind=45, timeout=600, mem_gb=12, wrap_files=True, nvec=6, flags=['--max-field-sensitivity-array-size', '400']),
+    Ob('timestamp_write', 'C17/partial.c', ['_ZN5gdstk13gds_timestampEPKcPK2tmPNS_9ErrorCodeE'], ir='ni', shrink=[(65537, 96, set())],
+       what='gds_timestamp in write mode on a spec-encoded file skeleton: returns the previous library time stamp, leaves the file length alone, puts the new time into both 12-byte halves of the BGNLIB and of every BGNSTR record and changes no other byte',
+       bound='file: HEADER, BGNLIB, LIBNAME, UNITS, BGNSTR, STRNAME, ENDSTR, ENDLIB (102 bytes); old and new time stamps arbitrary (also equal ones)',
+       variants=[{'OP': 4}], unwind=120, timeout=600, mem_gb=12, wrap_files=True, nvec=6, flags=['--max-field-sensitivity-array-size', '400']),
 ]
 BOUNDS = 'one two-element cell; every field value symbolic'
 OUTSIDE = 'gds_timestamp in write mode (the harness exists - harness/C17/partial.c OP 4 - but the query ran out of 12 GB: no verdict, not claimed); raw-cell copying (read_rawcells + RawCell::to_gds / GdsWriter): not decided in this round; non-power-of-two unit ratios beyond the 1e-3 example; files with several cells'
